@@ -57,6 +57,7 @@ import CtyModel.Lemmas.d09Fuel2
 import CtyModel.Lemmas.ConvertD08SetEnv
 import CtyModel.Lemmas.d09bTotal
 import CtyModel.Lemmas.d09bPlain
+import CtyModel.Lemmas.d09bTyEq
 namespace CtyModel
 namespace C09
 open Convert Ty Unify
@@ -1055,6 +1056,74 @@ example : ∀ ty ∈ totalWitnessTys, plainTy ty = true := by decide
 example : ∀ ty ∈ yieldWitnessTys, plainTy ty = true := by decide
 example : (applyU driverEnv 8 totalWitnessConv totalWitnessV).isPanic = false :=
   no_panic_applied_plain 2 8 false totalWitnessTys _ _ 0 _ totalWitnessV (by decide) rfl rfl rfl (by decide) (by decide)
+
+/-! ## d09b — ONE function: the type component of the full model is `unifyTy`
+
+The harness compares BOTH the type component of `unifyF` and `unifyTy` with the real `Unify` /
+`UnifyUnsafe`; they are the same function (Lemmas/d09bTyEq.lean: one activation of the one has the
+type result of one activation of the other — conversions exist iff the Boolean checks pass, the
+attribute columns looked up by name are the columns by position, the preference loop with its
+reused buffer is `findSome?` — and `unify_type_fixpoint` closes the recursion).  So every theorem
+above about `unifyTy` / `unifyTyF` at sufficient fuel (`unify_equal_types_std`,
+`unsafe_of_safe_flat_std`, `unify_result_reachable_flat_std`, `unify_type_depth`,
+`unified_type_plain_std`) is a theorem about the type `unify` returns. -/
+
+/-- Whenever the full model answers (fuel ≥ 2, either mode, any list of types whose object types
+are well-formed, any environment whose `unify` is `unifyTy`), the type it answers is `unifyTy` of
+the list — NilType exactly where `unifyTy` is `none`. -/
+theorem unify_type_is_unifyTy (base : Env) (n : Nat) (uns : Bool) (types : List Ty) (out : UOut)
+    (hw : ∀ ty ∈ types, isObjectTy ty = true → ty.wf = true)
+    (h : unifyF (Env.std base) (n + 2) uns types = .ok out) : out.map (·.1) = unifyTy uns types :=
+  unifyF_ty (E := Env.std base) rfl n types hw out h
+
+/-- … and it always answers (`unify_total`): the type component of `unify`, as a function of the
+type list, IS `unifyTy`. -/
+theorem unify_type_eq (base : Env) (n : Nat) (uns : Bool) (types : List Ty)
+    (hw : ∀ ty ∈ types, isObjectTy ty = true → ty.wf = true) :
+    (unifyF (Env.std base) (n + 2) uns types).map (fun o => o.map (·.1)) = .ok (unifyTy uns types) := by
+  obtain ⟨out, h⟩ := unify_total (Env.std base) n uns types hw
+  rw [h, Res.map, unify_type_is_unifyTy base n uns types out hw h]
+
+/-- hence `unifyTyF` at every sufficient fuel too (with `fuel_enough`) -/
+theorem unify_type_eq_fuel (base : Env) (n m : Nat) (uns : Bool) (types : List Ty)
+    (hw : ∀ ty ∈ types, isObjectTy ty = true → ty.wf = true) (hm : 2 * tyDepthL types + 2 ≤ m) :
+    (unifyF (Env.std base) (n + 2) uns types).map (fun o => o.map (·.1)) = .ok (unifyTyF m uns types) := by
+  rw [(fuel_enough uns types m hm).1]; exact unify_type_eq base n uns types hw
+
+/-- e.g. the depth bound and the flat-type reachability, now about the type `Unify` returns -/
+theorem unify_result_depth (base : Env) (n : Nat) (uns : Bool) (types : List Ty) (t : Ty) (cs : Convs)
+    (hw : ∀ ty ∈ types, isObjectTy ty = true → ty.wf = true)
+    (h : unifyF (Env.std base) (n + 2) uns types = .ok (some (t, cs))) : tyDepth t ≤ tyDepthL types :=
+  unify_type_depth uns types t (unify_type_is_unifyTy base n uns types _ hw h).symm
+
+example : (unifyF driverEnv 2 false fuelWitnessTys).map (fun o => o.map (·.1)) = .ok (some (.list (.map .string))) := by
+  rw [show driverEnv = Env.std (Env.concrete unifyTy) from rfl, unify_type_eq _ 0 _ _ (by decide)]; rfl
+
+/-- Clause "unsafe unification succeeds whenever safe unification does" on the FULL model, closed
+form for the types built from primitives, capsule types, lists, sets and maps (any depth, any
+length): where `Unify` returns a type with its conversions, so does `UnifyUnsafe`.  (`unsafe_of_safe_flat`
+was a statement about `unifyTyF`; `unify_type_eq` and `unify_total` carry it over.)  Through the
+object / tuple sub-unifiers the clause is still searched, not proved; with placeholders it is
+false (`unsafe_of_safe_counterexample`). -/
+theorem unsafe_of_safe_flat_full (base : Env) (n : Nat) (types : List Ty) (t : Ty) (cs : Convs)
+    (hf : ∀ x ∈ types, flat x = true) (h : unify (Env.std base) (n + 2) types = .ok (some (t, cs))) :
+    ∃ t' cs', unifyUnsafe (Env.std base) (n + 2) types = .ok (some (t', cs')) := by
+  have hw : ∀ ty ∈ types, isObjectTy ty = true → ty.wf = true := by
+    intro ty hty ho
+    have := hf ty hty
+    cases ty <;> simp [isObjectTy] at ho
+    simp [flat] at this
+  have h1 : unifyTy false types = some t := (unify_type_is_unifyTy base n false types _ hw h).symm
+  obtain ⟨t', ht'⟩ := unsafe_of_safe_flat_std types t hf h1
+  obtain ⟨out, ho⟩ := unify_total (Env.std base) n true types hw
+  have h2 := unify_type_is_unifyTy base n true types out hw ho
+  rw [ht'] at h2
+  cases out with
+  | none => simp at h2
+  | some r => exact ⟨r.1, r.2, ho⟩
+
+example : ∃ t' cs', unifyUnsafe driverEnv 2 [.list (.set .bool), .list (.list .string)] = .ok (some (t', cs')) :=
+  unsafe_of_safe_flat_full (Env.concrete unifyTy) 0 _ (.list (.list .string)) _ (by decide) rfl
 
 end C09
 end CtyModel
